@@ -441,7 +441,7 @@ var accessors = ev.Register(&ev.P[objCase]{
 		// day of that year still works and gives what it gave before
 		dig.Visit(calendar.NewLunarYear(ly0), 0, func(dig.Call) {})
 		if after := probe(); after != before {
-			return fmt.Errorf("%v: converting %04d-01-15 gave %q before the accessors of LunarYear(%d) were called and %q right after", c.T, ly0, before, after, ly0)
+			return fmt.Errorf("%v: converting %04d-01-15 gave %q before the accessors of LunarYear(%d) were called and %q right after", c.T, ly0, before, ly0, after)
 		}
 		return nil
 	},
